@@ -11,21 +11,23 @@ from .c01 import _tok_consts
 
 PROPERTY = 'C02'
 EXPLANATION = (
-    'Decided from source, mostly by interpreting it on witness formulas: (C02.1) no syntactic decision in the '
-    "parser, the tokenizer's second pass, the operand node or XLFormula depends on the characters of a string "
-    'literal (three-valued path conditions); (C02.2) every single-character read of the formula is dominated by a '
-    'live end-of-formula test; (C02.3) witness formulas containing every kind of token - calls with argument lists, '
-    'nested calls, arrays, booleans, error literals, numbers in every notation, sheet-qualified and absolute '
-    'references, string literals full of syntax characters - are parsed (FormulaParser.parse interpreted as '
-    'written) into the tree the text denotes; (C02.4) the three error-literal tables agree; (C02.5) the four state '
-    'blocks of the tokenizer come first, string content is copied verbatim except doubled quotes; (C02.6) a formula '
-    "is tokenised on construction; (C02.7) a leading '=', leading blanks, line breaks and blanks between tokens and "
-    "'@' before a function name do not change the tree; (C02.8) a blank between two tokens is dropped, or becomes "
-    'the intersection operator exactly between something that ends a value and something that starts one, for every '
-    'pair of contexts, on the token stream FormulaParser.tokenize produces; (C02.9) operator trees (shared with '
-    'C01.1-.5); (C02.10) witness formulas through FormulaParser.tokenize and OperandNode.eval: literals keep '
-    'blanks, tabs, line breaks and (un-doubled) quotes, quoted sheet names their characters.'
-    ' (C02.3) additionally generated tables: 15 argument forms in every position of nested calls, runs of quote characters in string literals; (C02.4) the seven error literals tokenized in four contexts.')
+    'Decided from source, mostly by interpreting it on witness formulas: (C02.1) no syntactic decision in the parser, the '
+    "tokenizer's second pass, the operand node or XLFormula depends on the characters of a string literal (three-valued "
+    'path conditions); (C02.2) every prefix of four witness formulas that exercise all scanner states tokenizes without a '
+    'Python-level exception (a prefix ending right after an argument separator is allow-listed); (C02.3) witness formulas '
+    'containing every kind of token - calls with argument lists, nested calls, arrays, booleans, error literals, numbers in'
+    ' every notation, sheet-qualified and absolute references, string literals full of syntax characters - are parsed '
+    '(FormulaParser.parse interpreted as written) into the tree the text denotes; (C02.4) the three error-literal tables '
+    'agree; (C02.5) inside a string literal, a quoted sheet name, a bracketed workbook part and an error literal operators,'
+    ' parentheses, commas, braces and quotes of the other kind split nothing, a doubled quote is one quote - witness '
+    "formulas tokenized as written; (C02.6) a formula is tokenised on construction; (C02.7) a leading '=', leading blanks, "
+    "line breaks and blanks between tokens and '@' before a function name do not change the tree; (C02.8) a blank between "
+    'two tokens is dropped, or becomes the intersection operator exactly between something that ends a value and something '
+    'that starts one, for every pair of contexts, on the token stream FormulaParser.tokenize produces; (C02.9) operator '
+    'trees (shared with C01.1-.5); (C02.10) witness formulas through FormulaParser.tokenize and OperandNode.eval: literals '
+    'keep blanks, tabs, line breaks and (un-doubled) quotes, quoted sheet names their characters. (C02.3) additionally '
+    'generated tables: 15 argument forms in every position of nested calls, runs of quote characters in string literals; '
+    '(C02.4) the seven error literals tokenized in four contexts.')
 NOT_DECIDED = ('equivalence of the hand-written state machine and the shunting-yard argument counting '
                'with the formula grammar for all texts (needs execution against a reference parser)')
 TRUSTED = ['token kinds of the grammar transcribed from the property statement']
